@@ -111,6 +111,11 @@ const (
 	pBasicEmptySecret
 	pOwnBasicOtherID  // the case's client authenticates (Basic) while the form names another known client
 	pOwnAssertOtherID // the case's client authenticates (assertion) while the form names another known client
+	// an assertion naming the case's client as issuer but signed by ANOTHER registered client with its own key and
+	// kid, which it names as subject (only a custom SubjectCheck lets the subject differ; the key must still be one
+	// the storage holds for the issuer)
+	pAssertForgedIssuer
+	pAssertTypeOnly // client_id and client_assertion_type, but neither an assertion nor a secret
 	numPres
 )
 
@@ -121,7 +126,8 @@ var presNames = [numPres]string{
 	"assertion-other-clients-key", "assertion-wrong-audience", "assertion-sub-mismatch", "assertion-valid-without-type",
 	"assertion-valid+client_id", "mixed:other-basic+own-client_id", "mixed:other-assertion+own-client_id",
 	"unknown-client-basic", "unknown-client-id", "unknown-client-assertion", "basic-empty-secret",
-	"mixed:own-basic+other-client_id", "mixed:own-assertion+other-client_id",
+	"mixed:own-basic+other-client_id", "mixed:own-assertion+other-client_id", "assertion-issuer-forged-by-other-client",
+	"client_id+assertion-type-without-assertion",
 }
 
 const coreCells = numOps * numPres * numAuth * numGrantKinds
@@ -142,6 +148,8 @@ type spec struct {
 	Post    bool        `json:"cfg_auth_method_post"`
 	PKJWT   bool        `json:"cfg_auth_method_private_key_jwt"`
 	Refresh bool        `json:"cfg_grant_type_refresh_token"`
+	Naive   bool        `json:"storage_compares_secrets_naively"` // AuthorizeClientIDSecret is a plain comparison (a client without secret matches "")
+	PermSub bool        `json:"cfg_permissive_subject_check"` // the application's provider overrides JWTProfileVerifier with op.SubjectCheck(allow all)
 	Caps    vstore.Caps `json:"-"`
 	CapsStr string      `json:"storage_caps"`
 
@@ -215,7 +223,7 @@ func (s *spec) badGrant(o int) string {
 }
 
 func (s *spec) cfgKey() string {
-	return fmt.Sprintf("post=%v,pkjwt=%v,refresh=%v,caps=%s", s.Post, s.PKJWT, s.Refresh, s.Caps)
+	return fmt.Sprintf("post=%v,pkjwt=%v,refresh=%v,permsub=%v,naive=%v,caps=%s", s.Post, s.PKJWT, s.Refresh, s.PermSub, s.Naive, s.Caps)
 }
 
 // grantDisabled: the provider configuration / storage capability set does not offer the grant.
@@ -339,6 +347,18 @@ func buildSpec(r *rand.Rand, idx int) *spec {
 	s.CredPlace = []int{placeBody, placeBody, placeBody, placeQuery, placeBoth, placeDifferent}[r.IntN(6)]
 	s.ParamPlace = []int{placeBody, placeBody, placeBody, placeQuery, placeBoth}[r.IntN(5)]
 	s.GTPlaceStr, s.CredStr, s.ParamStr = gtPlaceNames[s.GTPlace], placeNames[s.CredPlace], placeNames[s.ParamPlace]
+	// a storage that compares secrets naively only matters where no (or an empty) secret is presented
+	switch s.Pres {
+	case pNone, pIDOnly, pBasicEmptySecret, pAssertTypeOnly, pAssertNoType:
+		s.Naive = r.IntN(2) == 0
+	}
+	// a permissive subject check only matters to assertions: concentrate it on the assertion presentations
+	switch s.Pres {
+	case pAssertSubMismatch, pAssertForgedIssuer:
+		s.PermSub = r.IntN(2) == 0
+	case pAssertValid, pAssertOtherKey, pAssertValidWithID, pMixedAssert, pOwnAssertOtherID, pUnknownAssert:
+		s.PermSub = r.IntN(4) == 0
+	}
 	return s
 }
 
